@@ -30,7 +30,9 @@ add("C01", "E1",
     "multipliers) are run through the real add_semantics/assign_optimal_throughput/Frontend code at "
     "the three stages uniform / optimised once / optimised twice and every instruction is compared "
     "with the exact feasibility criterion (sign, support, sum, Hall's condition for every port subset) "
-    "and the totals with the column sums.",
+    "and the totals with the column sums. Part (b): on shipped models (quick 5, thorough all 17) one "
+    "instruction is synthesised per distinct micro-op list of the plain YAML (thorough: per entry) "
+    "and all single-line kernels and all ordered pairs over <=40 of them are checked the same way.",
     "Trusted: mc/ref/ports.py (Hall criterion). Unbounded quantifier decided on the stated finite "
     "family only; D1 (second pass, multi-micro-op forms) is a listed known finding.",
     "DESIGN.md §4 C01")
@@ -52,8 +54,12 @@ add("C03", "E1",
     "composed load incl. read-modify-write, AArch64 pre/post-index with and without p_index_latency, "
     "AT&T/.cond suffix fall-backs) x register pools with two aliasing widths and one unrelated "
     "register is analysed by the real add_semantics + create_DG and the edge set and every weight are "
-    "compared with the reference relation; flags on and off.",
-    "Trusted: mc/ref/dg.py + mc/ref/regs.py. Parsed lines are cached per distinct text (parser is "
+    "compared with the reference relation; flags on and off. Part (b): curated real vocabulary on "
+    "the shipped ISA databases. Part (c): role-probing audit of both shipped ISA databases (every "
+    "mnemonic with an entry, kernel 'writer of r ; X ; reader of r' for every register class and "
+    "flag X touches) against roles written down from the vendor manuals.",
+    "Trusted: mc/ref/dg.py + mc/ref/regs.py; the role tables in mc/checks/realvocab.py and "
+    "mc/checks/isa_audit.py. Parsed lines are cached per distinct text (parser is "
     "covered by C09/C10). Depth 3 only; other register pools/latency values not covered.",
     "DESIGN.md §4 C03")
 add("C05", "E1",
@@ -64,8 +70,9 @@ add("C05", "E1",
     "figure and the LCD column of the text report are compared with a DFS enumeration of "
     "winding-number-1 cycles over the reference relation of two concatenated iterations; also "
     "kernels located beyond file line 1000.",
-    "Trusted: mc/ref/dg.py, mc/ref/report.py. Kernels with an edge of ambiguous weight (data and "
-    "write-back register to the same consumer) are skipped and counted.",
+    "Trusted: mc/ref/dg.py (register relation and store->load relation), mc/ref/report.py. Edges "
+    "with more than one admissible weight (data and write-back register, register and memory) are "
+    "enumerated: the report has to agree with one consistent choice.",
     "DESIGN.md §4 C05")
 
 add("C04", "E1",
@@ -82,7 +89,9 @@ add("C04", "E1",
 add("C14", "E1",
     "exhaustive enumeration of all rotation offsets, differential oracle",
     "Every rotation offset of every generated kernel of length 2-3 (thorough: 4) over the C05 "
-    "alphabet and of every shipped example/test kernel body (quick: bodies <= 45 lines on one "
+    "alphabet, of every generated kernel of length 2-4 over 18 real instructions per ISA on the "
+    "shipped ISA databases (implicit operands, stack, write-back, store/load pairs) and of every "
+    "shipped example/test kernel body (quick: bodies <= 45 lines on one "
     "model per ISA; thorough: all bodies on all shipped models, flags on/off) is analysed by the real "
     "code and the set of cycles (members mapped to original positions, latency) and the LCD "
     "figure are compared with rotation 0.",
